@@ -68,6 +68,20 @@ fn real_main(args: &[String]) -> i32 {
         };
         return driver::worker_main(a);
     }
+    if args.len() >= 5 && args[2] == "--gen" {
+        // check <id> --gen <scenario> <run> [tier]: print the case the generator draws for that run
+        let def = match checks::find(&args[1]) {
+            Some(d) => d,
+            None => return 2,
+        };
+        let seed: u64 = std::env::var("VERIF_SEED").ok().and_then(|s| s.parse().ok()).unwrap_or(1);
+        let run: u64 = args[4].parse().unwrap_or(0);
+        let tier = args.get(5).and_then(|s| Tier::parse(s)).unwrap_or(Tier::Quick);
+        let mut rng = rng::Rng::for_run(seed, &format!("{}:{}", def.id, args[3]), run);
+        let case = (def.gen)(&args[3], &mut rng, tier, run);
+        println!("{}", serde_json::to_string(&case).unwrap());
+        return 0;
+    }
     if args.len() >= 4 && args[2] == "--replay" {
         return driver::replay_main(&args[1], &args[3]);
     }
